@@ -60,6 +60,11 @@ def payload_bytes(tif: bool, s0: int, s1: int, s2: int) -> bool:
 def _write_then_read(cap, rec, fil, chk, tif, n0, n1, s):
     cap, n0, n1 = mark.pick(cap, 1, 4), mark.pick(n0, 1, 7), mark.pick(n1, 1, 5)
     rec, fil, chk, tif = mark.pickb(rec), mark.pickb(fil), mark.pickb(chk), mark.pickb(tif)
+    with mark.untraced():
+        return _write_then_read_c(cap, rec, fil, chk, tif, n0, n1, s)
+
+
+def _write_then_read_c(cap, rec, fil, chk, tif, n0, n1, s):
     lrs = [_lr(0, n0, s), _lr(1, n1, s)]
     data, pos = _write(cap, rec, fil, chk, tif, lrs)
     mark.hit()
@@ -93,11 +98,16 @@ def _write_then_read(cap, rec, fil, chk, tif, n0, n1, s):
 
 def strip_tif_is_plain(cap: int, rec: bool, chk: bool, n0: int, n1: int) -> bool:
     """
-    pre: 1 <= cap <= 3 and 1 <= n0 <= 5 and 1 <= n1 <= 3
+    pre: 1 <= cap <= 4 and 1 <= n0 <= 7 and 1 <= n1 <= 5
     pre: PART < 0 or (2 if rec else 0) + (1 if chk else 0) == PART
     post: _
     """
-    cap, n0, n1, rec, chk = mark.pick(cap, 1, 3), mark.pick(n0, 1, 5), mark.pick(n1, 1, 3), mark.pickb(rec), mark.pickb(chk)
+    cap, n0, n1, rec, chk = mark.pick(cap, 1, 4), mark.pick(n0, 1, 7), mark.pick(n1, 1, 5), mark.pickb(rec), mark.pickb(chk)
+    with mark.untraced():
+        return _strip_c(cap, rec, chk, n0, n1)
+
+
+def _strip_c(cap, rec, chk, n0, n1):
     lrs = [_lr(0, n0, 0x5a), _lr(1, n1, 0x5a)]
     with_tif, _ = _write(cap, rec, False, chk, True, lrs)
     plain, _ = _write(cap, rec, False, chk, False, lrs)
@@ -132,6 +142,11 @@ def _sized(cap, tif, j, k1, s1, k2, s2):
     # symbolic read sizes make the file object return symbolic-LENGTH byte strings, which the solver's sequence theory does not get
     # through (every path timed out when probed); the sizes are therefore realized first - the path tree still covers every size
     cap, tif, j, k1, k2, s1, s2 = mark.pick(cap, 2, 3), mark.pickb(tif), mark.pick(j, 0, 1), mark.pick(k1, 0, 1), mark.pick(k2, 0, 1), mark.pick(s1, 0, 6), mark.pick(s2, 0, 6)
+    with mark.untraced():
+        return _sized_c(cap, tif, j, k1, s1, k2, s2)
+
+
+def _sized_c(cap, tif, j, k1, s1, k2, s2):
     lrs = [_lr(0, 5, 1), _lr(1, 4, 2)]
     data, pos = _write(cap, True, False, False, tif, lrs)
     r = File.FileRead(SymFile(data), 'r', False)
